@@ -47,11 +47,12 @@ type c11Case struct {
 // C11: listing is complete, duplicate-free and ordered for any prefix / delimiter / page size.
 func runC11(run *common.Run) {
 	maxSize := run.N(4, 5)
-	run.Rule = fmt.Sprintf("sub-space 'exh' (enumerated COMPLETELY, exhaustive=true refers to it): every subset of size <= %d of the name universe %q x prefixes %q x delimiters %q, and of the nested sibling-directory universe %q x prefixes %q x delimiters %q (file store: the subsets representable as files), x maxResults 1..n+1 and unset x both stores, the token chain followed to its end (more than n+2 pages is a violation); 'rand': random larger subsets of either universe and of their union, and tree-shaped sets (8 names of depth 2-3 built from directory components that extend one another: v1, v1.2, v1-b, v10, v1!, ...) with prefixes / delimiters cut from the names; 'big' (thorough): random 12-name buckets over the alphabet {a,b,/,.,-,0} with prefixes/delimiters cut from the names. ; 'large' (both tiers, both stores): one bucket of 2300-2900 names (thorough: 3 buckets of up to 4600) - flat names, 12-30 directories of 25-45 files with sibling names sorting between them, a second flat group; group sizes drawn per seed so that the 1000th / 2000th name falls into different groups - uploaded in random order and listed with maxResults in {unset (default page size), 1 (first 60 pages), 7, 300, 999, 1000, 1001, 1200, 5000, one random size 2-60, one random size 400-2500} x 11 prefix/delimiter pairs (none, '/', prefixes cutting into the directory / flat groups, a multi-character delimiter, a prefix matching nothing), every chain followed to its end (small sizes: bounded number of pages, then the beginning of the answer is compared). Oracle per pagination: concatenated items == model items, concatenated prefixes == model prefixes (each once, ascending), items+prefixes per page <= maxResults, every item's JSON == the metadata GET of that name; plus malformed tokens / maxResults => 400, missing bucket => 404. Case = one (name set, store). Non-trivial = at least one pagination of the case needed >= 2 pages and at least one listing returned a collapsed prefix; distinct by name set x store.", maxSize, c11Universe, c11Prefixes, c11Delims, c11Universe2, c11Prefixes2, c11Delims2)
+	run.Rule = fmt.Sprintf("sub-space 'exh' (enumerated COMPLETELY, exhaustive=true refers to it): every subset of size <= %d of the name universe %q x prefixes %q x delimiters %q, and of the nested sibling-directory universe %q x prefixes %q x delimiters %q (file store: the subsets representable as files), x maxResults 1..n+1 and unset x both stores, the token chain followed to its end (more than n+2 pages is a violation); 'rand': random larger subsets of either universe and of their union, and tree-shaped sets (8 names of depth 2-3 built from directory components that extend one another: v1, v1.2, v1-b, v10, v1!, ...) with prefixes / delimiters cut from the names; 'big' (thorough): random 12-name buckets over the alphabet {a,b,/,.,-,0} with prefixes/delimiters cut from the names. ; 'large' (both tiers, both stores): one bucket of 2300-2900 names (thorough: 3 buckets of up to 4600) - flat names, 12-30 directories of 25-45 files with sibling names sorting between them, a second flat group; group sizes drawn per seed so that the 1000th / 2000th name falls into different groups - uploaded in random order and listed with maxResults in {unset (default page size), 1 (first 60 pages), 7, 300, 999, 1000, 1001, 1200, 5000, one random size 2-60, one random size 400-2500} x 11 prefix/delimiter pairs (none, '/', prefixes cutting into the directory / flat groups, a multi-character delimiter, a prefix matching nothing), every chain followed to its end (small sizes: bounded number of pages, then the beginning of the answer is compared). Every exh / rand / big case first lists the bucket BEFORE anything was uploaded (every prefix x delimiter, maxResults unset, 1, 2: 200 and nothing) and, after the main grid, deletes its objects one by one in a case-dependent order (as given, reversed, rotated) until the bucket is empty: listed after the last delete (every fourth case after every delete) with every prefix x delimiter x maxResults in {unset, 1, n+1}, bucket metadata GET 200 before the first upload and after the last delete; every second case then uploads half of the names again and lists. 'churn' (both tiers, both stores): pools of 6 names from either universe or their union; 14-24 drawn uploads / deletes / overwrites of single objects, then deletes until nothing is left, so that the bucket runs empty through deletes of nested and top-level names several times and is filled again; after EVERY mutation the complete prefix x delimiter grid with maxResults in {unset, 1, 2, n+1}, and the bucket GET whenever it is empty. Oracle per pagination: concatenated items == model items, concatenated prefixes == model prefixes (each once, ascending), items+prefixes per page <= maxResults, every item's JSON == the metadata GET of that name; plus malformed tokens / maxResults => 400, missing bucket => 404, an existing bucket - also one that never held an object or lost its last object through a delete - => 200 for the listing (no items) and for its metadata GET. Case = one (name set, store). Non-trivial = at least one pagination of the case needed >= 2 pages and at least one listing returned a collapsed prefix (churn: the bucket was emptied by deletes at least twice and a pagination needed >= 2 pages); distinct by name set x store.", maxSize, c11Universe, c11Prefixes, c11Delims, c11Universe2, c11Prefixes2, c11Delims2)
 	run.Assumptions = []string{
 		"listing model from the statement: bytewise ascending names, prefix filter, collapse at the first delimiter after the prefix",
 		"file store: only name sets representable as files (no name that is a directory of another, no trailing '/')",
 		"item metadata is compared as decoded JSON with the metadata GET of the same name through the same server",
+		"a bucket exists from its creation until it is deleted, whatever happens to its objects: an empty bucket lists as 200 without items and its metadata GET answers 200 (the reference model keeps buckets and objects apart)",
 		"a malformed token is one that is not base64 or whose bytes are not a decodable token ('////'); well-formed tokens are only ever taken from the server",
 	}
 	j := common.NewJournal("C11")
@@ -163,6 +164,29 @@ func runC11(run *common.Run) {
 			cases = append(cases, c11Case{"rand", i*2 + s, store, names, pfx, dlm})
 		}
 	}
+	// 'churn': buckets whose objects come and go; pools of 6 names from either universe, their union or a tree-shaped set
+	for i, n := 0, run.N(60, 600); i < n; i++ {
+		r := run.Rand("C11.churnpool", i)
+		var pool, pfx, dlm []string
+		switch i % 3 {
+		case 0:
+			pool, pfx, dlm = append([]string(nil), c11Universe...), c11Prefixes, c11Delims
+		case 1:
+			pool, pfx, dlm = append([]string(nil), c11Universe2...), c11Prefixes2, c11Delims2
+		case 2:
+			pool = append(append([]string(nil), c11Universe...), c11Universe2...)
+			pfx, dlm = append(append([]string(nil), c11Prefixes...), c11Prefixes2[1:]...), c11Delims
+		}
+		common.Shuffle(r, pool)
+		pool = pool[:6]
+		for s, store := range drive.Stores {
+			if excluded(pool, store) {
+				skippedKF++
+				continue
+			}
+			cases = append(cases, c11Case{"churn", i*2 + s, store, pool, pfx, dlm})
+		}
+	}
 	if run.IsThorough() {
 		for i := 0; i < 500; i++ {
 			r := run.Rand("C11.big", i)
@@ -244,6 +268,15 @@ func runC11(run *common.Run) {
 	}
 }
 
+func contains(xs []string, x string) bool {
+	for _, y := range xs {
+		if y == x {
+			return true
+		}
+	}
+	return false
+}
+
 func cleanSafe(n string) bool {
 	if strings.HasPrefix(n, "/") {
 		return false
@@ -318,71 +351,229 @@ func c11Run(run *common.Run, srv *drive.Server, c c11Case, ci int) {
 		return
 	}
 	metaOf := map[string]string{}
-	for _, n := range c.names {
-		if r := cl.UploadMedia(b, n, "text/plain", []byte("content of "+n), false, nil); !r.OK() {
-			fail(fmt.Sprintf("upload of %q failed: %s", n, r))
-			return
+	multiPage, collapsed := false, false
+	listings := 0
+	// bucketThere: the bucket was created and never deleted, so its metadata GET answers 200 whatever it holds
+	bucketThere := func(when string) bool {
+		if r := cl.GetBucket(b); r.Status != 200 {
+			fail(fmt.Sprintf("GET bucket %s %s = %s, want 200 (the bucket was created and never deleted)", b, when, r))
+			return false
 		}
+		run.Count("bucket_gets_compared", 1)
+		return true
 	}
-	for _, n := range c.names {
+	upload := func(n, content string) bool {
+		if r := cl.UploadMedia(b, n, "text/plain", []byte(content), false, nil); !r.OK() {
+			fail(fmt.Sprintf("upload of %q failed: %s", n, r))
+			return false
+		}
 		r := cl.GetMeta(b, n)
 		m, err := r.JSON()
 		if r.Status != 200 || err != nil {
 			fail(fmt.Sprintf("metadata GET of %q failed: %s", n, r))
-			return
+			return false
 		}
 		metaOf[n] = canonJSON(m)
+		return true
 	}
-	n := len(c.names)
-	multiPage, collapsed := false, false
-	listings := 0
-	for _, pfx := range c.pfx {
-		for _, dlm := range c.dlm {
-			for mr := 0; mr <= n+1; mr++ { // 0 = unset
-				pages, trunc, err := cl.ListAll(b, pfx, dlm, mr, n+3)
-				listings++
-				desc := fmt.Sprintf("list prefix=%q delimiter=%q maxResults=%d", pfx, dlm, mr)
-				var mp []model.Page
-				for _, p := range pages {
-					mp = append(mp, model.Page{Items: p.Names, Prefixes: p.Prefixes, Token: p.Token})
-					desc += fmt.Sprintf(" | %d items=%q prefixes=%q token=%v", p.Status, p.Names, p.Prefixes, p.Token != "")
-				}
-				log = append(log, desc)
-				if len(log) > 12 {
-					log = log[len(log)-12:]
-				}
-				if err != nil {
-					fail(desc + ": " + err.Error())
-					return
-				}
-				if last := pages[len(pages)-1]; last.Status != 200 {
-					fail(fmt.Sprintf("%s: status %d", desc, last.Status))
-					return
-				}
-				if trunc || len(pages) > n+2 {
-					fail(fmt.Sprintf("%s: the token chain did not end within n+2=%d pages", desc, n+2))
-					return
-				}
-				if msg := model.CheckPages(mp, c.names, pfx, dlm, mr); msg != "" {
-					fail(desc + ": " + msg)
-					return
-				}
-				for _, p := range pages {
-					for i, it := range p.Items {
-						if got := canonJSON(it); got != metaOf[p.Names[i]] {
-							fail(fmt.Sprintf("%s: item %q differs from its metadata GET: item %s, GET %s", desc, p.Names[i], got, metaOf[p.Names[i]]))
-							return
+	// grid lists the bucket, which holds exactly names, with every prefix x delimiter of the case x the given
+	// maxResults values (0 = unset) and compares every complete pagination with the listing model.
+	grid := func(names []string, sizes []int, when string) bool {
+		n := len(names)
+		for _, pfx := range c.pfx {
+			for _, dlm := range c.dlm {
+				for _, mr := range sizes {
+					pages, trunc, err := cl.ListAll(b, pfx, dlm, mr, n+3)
+					listings++
+					desc := fmt.Sprintf("list prefix=%q delimiter=%q maxResults=%d", pfx, dlm, mr)
+					if when != "" {
+						desc = when + ": " + desc
+					}
+					var mp []model.Page
+					for _, p := range pages {
+						mp = append(mp, model.Page{Items: p.Names, Prefixes: p.Prefixes, Token: p.Token})
+						desc += fmt.Sprintf(" | %d items=%q prefixes=%q token=%v", p.Status, p.Names, p.Prefixes, p.Token != "")
+					}
+					log = append(log, desc)
+					if len(log) > 12 {
+						log = log[len(log)-12:]
+					}
+					if err != nil {
+						fail(desc + ": " + err.Error())
+						return false
+					}
+					if last := pages[len(pages)-1]; last.Status != 200 {
+						fail(fmt.Sprintf("%s: status %d", desc, last.Status))
+						return false
+					}
+					if trunc || len(pages) > n+2 {
+						fail(fmt.Sprintf("%s: the token chain did not end within n+2=%d pages", desc, n+2))
+						return false
+					}
+					if msg := model.CheckPages(mp, names, pfx, dlm, mr); msg != "" {
+						fail(desc + ": " + msg)
+						return false
+					}
+					for _, p := range pages {
+						for i, it := range p.Items {
+							if got := canonJSON(it); got != metaOf[p.Names[i]] {
+								fail(fmt.Sprintf("%s: item %q differs from its metadata GET: item %s, GET %s", desc, p.Names[i], got, metaOf[p.Names[i]]))
+								return false
+							}
+						}
+						if len(p.Prefixes) > 0 {
+							collapsed = true
 						}
 					}
-					if len(p.Prefixes) > 0 {
-						collapsed = true
+					if len(pages) >= 2 {
+						multiPage = true
+					}
+					if n == 0 {
+						run.Count("listings_of_empty_buckets", 1)
+					}
+					run.Count("pages_followed", int64(len(pages)))
+				}
+			}
+		}
+		return true
+	}
+	// a bucket that never held an object lists as empty (200, no items) for every prefix / delimiter / page size
+	if !grid(nil, []int{0, 1, 2}, "bucket that never held an object") || !bucketThere("before the first upload") {
+		return
+	}
+	if c.sub == "churn" {
+		// c.names is a pool: objects come and go in a drawn order, the bucket runs empty several times; after every
+		// upload / delete the bucket is listed with every prefix x delimiter x maxResults in {unset, 1, 2, n+1}
+		r := run.Rand("C11.churn", c.idx)
+		var live []string
+		emptied, steps := 0, r.Range(14, 24)
+		for st := 0; st < steps || len(live) > 0; st++ {
+			var absent []string
+			for _, x := range c.names {
+				if !contains(live, x) && (c.store != "file" || representable(x, live)) {
+					absent = append(absent, x)
+				}
+			}
+			grow := len(live) == 0 || (len(live) < 4 && r.Chance(2, 5))
+			if st >= steps || len(absent) == 0 {
+				grow = false // wind down: delete what is left
+			}
+			what := ""
+			if grow {
+				x := common.Pick(r, absent)
+				if !upload(x, fmt.Sprintf("content %d of %s", st, x)) {
+					return
+				}
+				live = append(live, x)
+				what = fmt.Sprintf("step %d: after uploading %q", st, x)
+			} else {
+				x := common.Pick(r, live)
+				if r.Chance(1, 6) {
+					if !upload(x, fmt.Sprintf("overwritten %d of %s", st, x)) {
+						return
+					}
+					what = fmt.Sprintf("step %d: after overwriting %q", st, x)
+				} else {
+					if rsp := cl.Delete(b, x, nil); !rsp.OK() {
+						fail(fmt.Sprintf("delete of %q failed: %s", x, rsp))
+						return
+					}
+					var rest []string
+					for _, y := range live {
+						if y != x {
+							rest = append(rest, y)
+						}
+					}
+					live = rest
+					run.Count("drain_deletes", 1)
+					what = fmt.Sprintf("step %d: after deleting %q", st, x)
+					if len(live) == 0 {
+						emptied++
+						run.Count("buckets_emptied_by_deletes", 1)
+						what += " (the bucket's last object)"
 					}
 				}
-				if len(pages) >= 2 {
-					multiPage = true
-				}
-				run.Count("pages_followed", int64(len(pages)))
 			}
+			sort.Strings(live)
+			if !grid(live, []int{0, 1, 2, len(live) + 1}, what) {
+				return
+			}
+			if len(live) == 0 && !bucketThere(what) {
+				return
+			}
+		}
+		run.Count("listings", int64(listings))
+		run.Case(common.Hash64("churn", c.store, fmt.Sprint(c.idx), strings.Join(c.names, "\x00")), emptied >= 2 && multiPage)
+		if c.idx < 2 {
+			run.Sample(map[string]any{"sub": "churn", "store": c.store, "pool": c.names, "times_emptied_by_deletes": emptied, "last_listings": log[max(0, len(log)-3):]})
+		}
+		return
+	}
+	for _, n := range c.names {
+		if !upload(n, "content of "+n) {
+			return
+		}
+	}
+	n := len(c.names)
+	var full []int
+	for mr := 0; mr <= n+1; mr++ { // 0 = unset
+		full = append(full, mr)
+	}
+	if !grid(c.names, full, "") {
+		return
+	}
+	// Drain: the objects are deleted one by one (order varies with the case) until the bucket is empty again. It is
+	// listed after every delete (every fourth case; the others after the last one) - a bucket emptied by deletes is
+	// still a bucket: 200 with no items, and its metadata GET answers 200 - then filled again and listed.
+	if c.sub != "large" {
+		order := append([]string(nil), c.names...)
+		switch ci % 3 {
+		case 1:
+			for i, j := 0, len(order)-1; i < j; i, j = i+1, j-1 {
+				order[i], order[j] = order[j], order[i]
+			}
+		case 2:
+			if len(order) > 1 {
+				order = append(order[1:], order[0])
+			}
+		}
+		left := append([]string(nil), c.names...)
+		for k, dn := range order {
+			if r := cl.Delete(b, dn, nil); !r.OK() {
+				fail(fmt.Sprintf("delete of %q failed: %s", dn, r))
+				return
+			}
+			var rest []string
+			for _, x := range left {
+				if x != dn {
+					rest = append(rest, x)
+				}
+			}
+			left = rest
+			run.Count("drain_deletes", 1)
+			if ci%4 == 0 || k == len(order)-1 {
+				if !grid(left, []int{0, 1, len(left) + 1}, fmt.Sprintf("after deleting %q (%d of %d)", order[:k+1], k+1, len(order))) {
+					return
+				}
+			}
+		}
+		if n > 0 {
+			run.Count("buckets_emptied_by_deletes", 1)
+		}
+		if !bucketThere("after its last object was deleted") {
+			return
+		}
+		if ci%2 == 0 && n > 0 {
+			back := order[:(n+1)/2]
+			for _, x := range back {
+				if !upload(x, "second content of "+x) {
+					return
+				}
+			}
+			if !grid(back, []int{0, 1, len(back)}, fmt.Sprintf("after the emptied bucket was filled again with %q", back)) || !bucketThere("after the refill") {
+				return
+			}
+			run.Count("emptied_buckets_refilled", 1)
 		}
 	}
 	run.Count("listings", int64(listings))
